@@ -220,7 +220,7 @@ func (k Keeper) SendToNewVestingAccount(ctx sdk.Context, owner string, toAddr st
 	if err == nil {
 		k.SetAccountVestingPools(ctx, accVestingPools)
 		k.AppendVestingAccountTrace(ctx, types.VestingAccountTrace{
-			Address:            toAddr,
+			Address:            toAccAddress.String(),
 			Genesis:            false,
 			FromGenesisPool:    vestingPool.GenesisPool,
 			FromGenesisAccount: false,
